@@ -71,7 +71,9 @@ def field_coverage(ctx: Ctx) -> None:
     fa = ctx.repo.func(f"{PAR}.nodes.wildcard:WildcardNode.fetch_any_children")
     slices = [x for x in walk_no_nested(fa.node) if isinstance(x, ast.Subscript) and unparse(x.value) == "objects" and isinstance(x.slice, ast.Slice)]
     same = all(unparse(x.slice.lower or ast.Constant(0)) == "position" and x.slice.upper is None and x.slice.step is None for x in slices)
-    ok = same and any(isinstance(x.ctx, ast.Load) for x in slices) and any(isinstance(x.ctx, ast.Del) for x in slices) and not any(isinstance(c, ast.Call) and call_name_of(c) in ("reversed", "sorted", "set") for c in walk_no_nested(fa.node))
+    emptied = [st for st, tgt, v in stores(fa.node) if isinstance(tgt, ast.Subscript) and unparse(tgt.value) == "objects" and isinstance(tgt.slice, ast.Slice) and isinstance(v, (ast.List, ast.Tuple)) and not v.elts]
+    removed = any(isinstance(x.ctx, ast.Del) for x in slices) or bool(emptied)  # del objects[position:]  /  objects[position:] = []
+    ok = same and any(isinstance(x.ctx, ast.Load) for x in slices) and removed and not any(isinstance(c, ast.Call) and call_name_of(c) in ("reversed", "sorted", "set") for c in walk_no_nested(fa.node))
     ctx.ob("fetch_any_children takes all objects parsed since the element started (objects[position:]), in order, and removes exactly that slice", ok, at=fa, construct="children slice",
            msg="children lost, duplicated or reordered")
 
@@ -275,7 +277,8 @@ def single_wildcard_container(ctx: Ctx) -> None:
     """A second element bound to a single wildcard wraps the first in a nameless container unless the first already IS that nameless container."""
     fi = ctx.repo.func(f"{PAR}.nodes.element:ElementNode.bind_wild_var")
     g = build_cfg(fi.node)
-    wraps = [g.node_of(st) for st, tgt, v in stores(fi.node) if isinstance(tgt, ast.Subscript) and isinstance(v, ast.Call) and any(k.arg == "children" for k in v.keywords)]
+    wraps = [g.node_of(st) for st, tgt, v in stores(fi.node) if isinstance(tgt, ast.Subscript) and v is not None
+             and any(isinstance(x, ast.Call) and any(k.arg == "children" for k in x.keywords) for x in leaves_at(fi, st, v))]
     ok = len(wraps) == 1 and wraps[0] is not None
     if ok:
         # the wrap must be reachable (a) when the previous value is not a generic element and (b) when it is one that has a qname;
